@@ -55,7 +55,7 @@ def generate(R: Draw, tier: str) -> dict:
     n = node.content.size
     T = P.tokens_of(doc["c"], rs.leaf_types)
     dd = S.depth_table(T)
-    kind = R.weighted([("typing", 2), ("backspace", 2), ("adjacent", 6), ("marks", 4), ("ops", 3)])
+    kind = R.weighted([("typing", 2), ("backspace", 2), ("adjacent", 6), ("marks", 4), ("ops", 3), ("open-pair", 4)])
     s1 = s2 = None
     inline_pos = [p for p in range(n + 1) if p < len(T) and T[p][0] == "char" or (p > 0 and T[p - 1][0] == "char")]
     if kind == "typing" and inline_pos:
@@ -100,6 +100,36 @@ def generate(R: Draw, tier: str) -> dict:
             i = R.int(0, len(tr2.steps) - 2)
             s1, s2 = gs.describe_step(tr2.steps[i]), gs.describe_step(tr2.steps[i + 1])
             doc = P.plain(tr2.docs[i])
+    if kind == "open-pair":
+        # two insertions at a text position whose slices are open on BOTH sides by the same depth k (split-like),
+        # the second either ending where the first started or starting where the first's insertion ends
+        from ..ref import resolve as RR
+
+        rdoc = RR.N(doc, rs)
+        spots = [p for p in range(n + 1) if rs.textblock.get(RR.RefPos(rs, rdoc, p).parent.t)]
+        if spots:
+            p = R.choice(spots)
+            rp = RR.RefPos(rs, rdoc, p)
+            k = 2 if rp.depth >= 2 and R.bool(0.35) else 1
+
+            def open_slice() -> dict:
+                def shell(txt: str) -> dict:
+                    nd = P.mk(rp.parent.t, copy.deepcopy(rp.parent.p["a"]), [P.mk("text", {}, None, [], txt)])
+                    if k == 2:
+                        outer = rp.node(rp.depth - 1)
+                        nd = P.mk(outer.t, copy.deepcopy(outer.p["a"]), [nd])
+                    return nd
+
+                return {"c": [shell(g.text(R, 0.1)), shell(g.text(R, 0.1))], "os": k, "oe": k}
+
+            sl1, sl2 = open_slice(), open_slice()
+            size1 = S.slice_size(sl1, rs.leaf_types)
+            s1 = {"k": "replace", "from": p, "to": p, "slice": sl1, "structure": False}
+            q = p if R.bool(0.6) else p + size1
+            if R.bool(0.25) and q == p and p > 0 and T[p - 1][0] == "char":
+                s2 = {"k": "replace", "from": p - 1, "to": p, "slice": sl2, "structure": False}
+            else:
+                s2 = {"k": "replace", "from": q, "to": q, "slice": sl2, "structure": False}
     if s1 is None:
         # adjacent replace steps with open / closed slices
         for _ in range(4):
